@@ -294,6 +294,13 @@ func (d directFam) runDirect(rec *frec, o fobj, r *rand.Rand, nRandom int) {
 			add(n, false)
 			n[j] = fit + 1 + r.Intn(64)
 			add(n, false)
+			// every other distance (in elements) from the limit the model walks (EDGE records of FrameSizes.tla)
+			for _, d := range edgeSlacks {
+				if d != 0 && d != -1 && fit-d >= 0 {
+					n[j] = fit - d
+					add(n, false)
+				}
+			}
 		}
 		// hungry streams: announced counts of several magnitudes, never-ending elements
 		for _, cnt := range []uint64{uint64(limit), uint64(limit/2 + 1), uint64(limit) + 1, 1 << 40, 1<<63 + 5} {
